@@ -295,6 +295,15 @@ func Run(src io.Reader, o Opts) (obs Obs) {
 				retries++
 				obs.Retried++
 				err = readAll(rd, buf, &p)
+				if err == wsutil.ErrNoFrameAdvance {
+					// "every new Read must be preceded by NextFrame": the consumer, which knows that its message has
+					// not ended, asks for the next frame and goes on reading
+					var h2 ws.Header
+					if h2, err = rd.NextFrame(); err == nil {
+						_ = h2
+						err = readAll(rd, buf, &p)
+					}
+				}
 			}
 			cur = nil
 			if err != nil {
